@@ -24,7 +24,7 @@ Definition mstep (c f : Z) (m : mview) (o : op) : mview :=
         match m with Some (Some g) => Some (Some (remove_first i g)) | _ => m end
       else m
   | ODelete c' => if Z.eqb c c' then None else m
-  | OGet _ | OPush _ | OFront _ _ _ | ODirect _ _ => m
+  | OGet _ | OPush _ | OFront _ _ _ | ODirect _ _ | OFrontSeq _ _ => m
   end.
 
 Definition members (h : list op) (c f : Z) : mview := fold_left (mstep c f) h None.
